@@ -284,27 +284,30 @@ func TestC05(t *testing.T) {
 			}
 			return
 		}
-		// deterministic: every file type, empty and with one all-invalid message per slot
-		n := int64(0)
-		for _, ft := range prof.FileTypes {
-			for _, hc := range []bool{false, true} {
-				for _, be := range []bool{false, true} {
-					fs := &gen.FileSpec{Type: int(ft), HdrCRC: hc, Proto: 0x20, BigEndian: be, FileId: gen.MsgSpec{Fields: map[string]fitmodel.Val{}}}
-					n++
-					if msg, ok := checkEncode(fs, map[string]int{}); !ok {
-						rec.Fail("empty", "", msg, fs)
-					}
-					for _, s := range prof.Slots(ft) {
-						fs.Slots = append(fs.Slots, gen.SlotSpec{Name: s.Name, Msgs: []gen.MsgSpec{{Global: s.Msg, Fields: map[string]fitmodel.Val{}}}})
-					}
-					n++
-					if msg, ok := checkEncode(fs, map[string]int{}); !ok {
-						rec.Fail("all-invalid", "", msg, fs)
+		if hx.FirstShard() {
+			// deterministic: every file type, empty and with one all-invalid message per slot
+			n := int64(0)
+			for _, ft := range prof.FileTypes {
+				for _, hc := range []bool{false, true} {
+					for _, be := range []bool{false, true} {
+						fs := &gen.FileSpec{Type: int(ft), HdrCRC: hc, Proto: 0x20, BigEndian: be, FileId: gen.MsgSpec{Fields: map[string]fitmodel.Val{}}}
+						n++
+						if msg, ok := checkEncode(fs, map[string]int{}); !ok {
+							rec.Fail("empty", "", msg, fs)
+						}
+						for _, s := range prof.Slots(ft) {
+							fs.Slots = append(fs.Slots, gen.SlotSpec{Name: s.Name, Msgs: []gen.MsgSpec{{Global: s.Msg, Fields: map[string]fitmodel.Val{}}}})
+						}
+						n++
+						if msg, ok := checkEncode(fs, map[string]int{}); !ok {
+							rec.Fail("all-invalid", "", msg, fs)
+						}
 					}
 				}
 			}
+			rec.Eval("empty+all-invalid", n)
+
 		}
-		rec.Eval("empty+all-invalid", n)
 
 		hx.RapidCheck(t, rec, "files", func(rt *rapid.T, fail func(string, string, any)) {
 			o := gen.DefaultFileOpts()
